@@ -206,7 +206,7 @@ def isolation(chk, P):
     I = F.make_interp(P)
     model = ParserModel(I, P)
     wrapped = PyObjV(model)
-    site = cls.lookup("__init__").site()
+    site = cls.site_of("__init__")
     specs = [("include", ["A", "B"]), ("include", ["C"]), ("exclude", ["A"])]
     views = []
     history = []
@@ -261,7 +261,7 @@ def builder_isolation(chk, P):
     def view_of(I, wrapped, i):
         return I.instantiate(fcls, [wrapped], {specs[i][0]: ListV([Const(s) for s in specs[i][1]], "list")}, None)
     for bname in ("EAM_Potential_Builder", "EAM_Potential_Builder_FS"):
-        site = P.cls(E.BUILDER_MOD, bname).lookup("eam_potentials").site()
+        site = P.cls(E.BUILDER_MOD, bname).site_of("eam_potentials")
         alone = []
         for i in range(len(specs)):
             J = F.make_interp(P)
@@ -324,5 +324,5 @@ def cli(chk, P):
         ok = len(got) == (len(model.views["pair"]) if wantall else 0)
         chk.ob("C13.O5", "FilteredConfigParser(%s) keeps %s" % (", ".join("%s=[]" % k for k in kw) or "no lists",
                                                                  "everything" if wantall else "nothing"), ok,
-               site=cls.lookup("__init__").site(), found="%d pair entries" % len(got), expect="all" if wantall else "none",
+               site=cls.site_of("__init__"), found="%d pair entries" % len(got), expect="all" if wantall else "none",
                key="C13.O5|empty|%s" % ("-".join(kw) or "none"))
